@@ -33,6 +33,10 @@ def generate(rng, tier):
             out.append((f"yawq {hx(blk)} y{t}", len(durs) > 0))
             out.append((f"yawq {hx(blk)} r{t}", len(durs) > 0))
         out.append((f"yawq {hx(blk)} d", len(durs) > 0))
+        # the duration is the sum of ALL setpoints wherever the player is parked
+        if durs:
+            t1, t2 = rng.choice(ts), rng.choice(ts)
+            out.append((f"yawq {hx(blk)} y{t1} d r{t2} d d", True))
     for blk in [b"", b"\x01", b"\x01\x02", b"\x00\x00\x00", b"\xff\xff\x7f", b"\x01\x00\x80\x01"]:
         out.append((f"yawq {hx(blk)} y0 r0 d", False))
     return out
